@@ -294,3 +294,76 @@ impl Glue {
         }
     }
 }
+
+impl TcpNoise {
+    /// Server side of the whole preface protocol (`preface::accept`) on one accepted TCP
+    /// connection: encryption preface, noise handshake, endpoint message.
+    /// Returns the session and which network the dialler asked for.
+    pub async fn accept_preface(
+        ctx: &ctx::Ctx,
+        listener: &mut zksync_concurrency::net::tcp::Listener,
+    ) -> ctx::Result<(Self, &'static str)> {
+        let stream = crate::metrics::MeteredStream::accept(ctx, listener).await?;
+        let (stream, endpoint) = crate::preface::accept(ctx, stream).await?;
+        Ok((
+            Self(stream),
+            match endpoint {
+                crate::preface::Endpoint::ConsensusNet => "consensus",
+                crate::preface::Endpoint::GossipNet => "gossip",
+            },
+        ))
+    }
+}
+
+/// C12: the OUTBOUND admission glue (dial -> handshake expecting `peer` -> pool insert -> rpc
+/// service -> pool remove) and the validator network's reconnect loop.
+impl Glue {
+    /// `gossip::Network::run_outbound_stream`.
+    pub async fn gossip_run_outbound_stream(
+        &self,
+        ctx: &ctx::Ctx,
+        peer: &zksync_consensus_roles::node::PublicKey,
+        addr: std::net::SocketAddr,
+    ) -> anyhow::Result<()> {
+        self.0
+            .gossip
+            .run_outbound_stream(ctx, peer, addr.into())
+            .await
+    }
+    /// `consensus::Network::run_outbound_stream`.
+    pub async fn consensus_run_outbound_stream(
+        &self,
+        ctx: &ctx::Ctx,
+        peer: &zksync_consensus_roles::validator::PublicKey,
+        addr: std::net::SocketAddr,
+    ) -> anyhow::Result<()> {
+        match &self.0.consensus {
+            Some(c) => consensus::run_outbound_stream(c, ctx, peer, addr).await,
+            None => anyhow::bail!("this node has no consensus network"),
+        }
+    }
+    /// `consensus::Network::maintain_connection` (returns when `ctx` is canceled).
+    pub async fn consensus_maintain_connection(
+        &self,
+        ctx: &ctx::Ctx,
+        peer: &zksync_consensus_roles::validator::PublicKey,
+    ) {
+        if let Some(c) = &self.0.consensus {
+            c.maintain_connection(ctx, peer).await
+        }
+    }
+    /// Publishes an address of validator `key` in this node's address book
+    /// (`ValidatorAddrsWatch::announce`), which `maintain_connection` dials.
+    pub async fn announce_validator_addr(
+        &self,
+        key: &zksync_consensus_roles::validator::SecretKey,
+        addr: std::net::SocketAddr,
+        timestamp: zksync_concurrency::time::Utc,
+    ) {
+        self.0
+            .gossip
+            .validator_addrs
+            .announce(key, addr, timestamp)
+            .await
+    }
+}
